@@ -81,15 +81,6 @@ theorem render_acc_ok (l : List (Str × Str)) (h : ∀ kv ∈ l, hexOk kv.2 = tr
     rw [ih (fun x hx => h x (by simp [hx])) _ (by simp)]
     simp [entryText]
 
-theorem joinWith_cons_flatMap (c : Char) (a : Str) (l : List Str) :
-    joinWith c (a :: l) = a ++ l.flatMap fun x => c :: x := by
-  induction l generalizing a with
-  | nil => simp [joinWith]
-  | cons b rest ih =>
-    simp only [joinWith, List.flatMap_cons]
-    rw [ih b]
-    simp
-
 /-- the text lists `algorithm:lowerhex` in the sorted order, joined by `,` -/
 theorem render_ok (l : List (Str × Str)) (h : ∀ kv ∈ l, hexOk kv.2 = true) :
     Cksum.render l [] = .ok (joinWith ',' (l.map entryText)) := by
@@ -426,5 +417,90 @@ theorem ofText_toText (c : Cksum) (hne : c ≠ []) (hn : KeysNodup c) (hok : ∀
     unfold entryText
     simp only [List.mem_append, List.mem_cons, not_or]
     exact ⟨hcomma kv (p.subset hm), by decide, (lowerHex_no_sep (hok kv (p.subset hm))).2⟩
+
+end Purl
+
+namespace Purl
+
+theorem not_mem_keys_of_lookup_none {c : Cksum} {k : Str} (h : c.lookup k = none) : k ∉ c.map (·.1) := by
+  induction c with
+  | nil => simp
+  | cons x rest ih =>
+    obtain ⟨a, w⟩ := x
+    simp only [Cksum.lookup] at h
+    by_cases e : a = k
+    · simp [e] at h
+    · simp only [e, if_false] at h
+      simp only [List.map_cons, List.mem_cons, not_or]
+      exact ⟨fun e2 => e e2.symm, ih h⟩
+
+theorem ofPieces_length (U : UnicodeOps) (pieces : List Str) (acc c : Cksum)
+    (h : Cksum.ofPieces U pieces acc = .ok c) : c.length = acc.length + pieces.length := by
+  induction pieces generalizing acc with
+  | nil => simp [Cksum.ofPieces] at h; subst h; simp
+  | cons p rest ih =>
+    simp only [Cksum.ofPieces] at h
+    split at h
+    · simp at h
+    · rename_i alg bytes _
+      split at h
+      · simp at h
+      · rename_i acc' hins
+        have hf := hmInsert_fst acc (copyAsLower U alg) bytes
+        rw [hins] at hf
+        simp only at hf
+        have hnm := not_mem_keys_of_lookup_none hf.symm
+        rw [hmInsert_of_not_mem acc _ _ hnm] at hins
+        simp at hins
+        subst hins
+        have := ih _ h
+        simp at this ⊢
+        omega
+
+/-- parsing a checksum text yields at least one entry -/
+theorem ofText_ne_nil (U : UnicodeOps) {s : Str} {c : Cksum} (h : Cksum.ofText U s = .ok c) : c ≠ [] := by
+  unfold Cksum.ofText at h
+  have := ofPieces_length U _ _ _ h
+  have hne := splitOn_ne_nil ',' s
+  intro e
+  subst e
+  cases hs : splitOn ',' s with
+  | nil => exact hne hs
+  | cons _ _ => rw [hs] at this; simp at this
+
+theorem joinWith_ne_nil {c : Char} {l : List Str} (hne : l ≠ []) (h : ∀ a ∈ l, a ≠ []) : joinWith c l ≠ [] := by
+  cases l with
+  | nil => exact absurd rfl hne
+  | cons a rest =>
+    rw [joinWith_cons_flatMap]
+    intro e
+    exact h a (by simp) (List.append_eq_nil_iff.1 e).1
+
+/-- the text of a non-empty checksum is non-empty -/
+theorem toText_ne_nil {c : Cksum} {t : Str} (hne : c ≠ []) (h : c.toText = .ok t) : t ≠ [] := by
+  by_cases hall : ∀ kv ∈ c, hexOk kv.2 = true
+  · rw [toText_ok c hall] at h
+    simp at h
+    subst h
+    apply joinWith_ne_nil
+    · intro e
+      have := List.map_eq_nil_iff.1 e
+      have hp := (List.mergeSort_perm c cksumLe).length_eq
+      rw [this] at hp
+      simp at hp
+      exact hne (List.length_eq_zero_iff.1 hp.symm)
+    · intro a ha
+      obtain ⟨kv, _, rfl⟩ := List.mem_map.1 ha
+      exact entryText_ne_nil kv
+  · have : ∃ kv ∈ c, hexOk kv.2 = false := by
+      apply Classical.byContradiction
+      intro hn
+      apply hall
+      intro kv hm
+      cases hk : hexOk kv.2 with
+      | true => rfl
+      | false => exact absurd ⟨kv, hm, hk⟩ hn
+    rw [toText_err c this] at h
+    simp [fail] at h
 
 end Purl
